@@ -42,6 +42,7 @@ type Proc struct {
 	probes        []*Obligation
 	pureDepth     int
 	heapReads     int
+	havocFacts    []havocFact
 	entryFacts    []*Term
 	lets          map[string]Val
 	cbAlias       map[*types.Var]*types.Var
@@ -527,6 +528,14 @@ func (p *Proc) evalSpecCall(ec *ectx, name string, call *ast.CallExpr) (Val, boo
 		return Val{T: Sel(card, m.T), Typ: types.Typ[types.Int]}, true
 	case "spawned":
 		return Val{T: p.heapGet(ec.st, "G:$spawned", SInt), Typ: types.Typ[types.Int]}, true
+	case "callcount":
+		// number of calls (through contracts) to functions with this name made by this procedure
+		lit, ok := call.Args[0].(*ast.BasicLit)
+		if !ok {
+			p.failf(call, "%s: callcount needs a string literal", ec.where)
+		}
+		name := strings.Trim(lit.Value, "\"")
+		return Val{T: p.heapGet(ec.st, "G:$calls:"+name, SInt), Typ: types.Typ[types.Int]}, true
 	case "handed":
 		return Val{T: p.heapGet(ec.st, "G:$handed", SInt), Typ: types.Typ[types.Int]}, true
 	case "invoked":
